@@ -397,6 +397,8 @@ def _ensure_contract(u, fn, cfg, R):
         s2.cons = list(st.cons)
         s2.alloc = dict(st.alloc)
         s2.truth = dict(st.truth)
+        s2.reads = list(st.reads)
+        s2.flags = set(st.flags)
         return s2
 
     def truth_of(e, st):
@@ -534,6 +536,11 @@ def _ensure_contract(u, fn, cfg, R):
                         assign(a['l'], ('opaque', '?'), st)
                 else:
                     assign(a['l'], ('opaque', '?'), st)
+            elif evn.kind == 'call' and callee_name(evn.node) in ('memcpy', 'memmove') and len(evn.node['args']) == 3:
+                src = ev(evn.node['args'][1], st)
+                if isinstance(src, tuple) and src[0] == 'ptr' and src[1] == 'BUF0':
+                    k_ = ev(evn.node['args'][2], st)
+                    st.reads.append((evn.node, k_.add(src[2]) if isinstance(k_, Lin) else None))
 
     def add_fact(e, truth, st):
         e = strip_casts(e)
@@ -570,6 +577,8 @@ def _ensure_contract(u, fn, cfg, R):
     st0.cons = []
     st0.alloc = {}
     st0.truth = {}
+    st0.reads = []       # (call, bytes read out of the buffer the function was entered with)
+    st0.flags = set()    # 'noalloc' once the path has tested p->noalloc
     results = []
     work = [(cfg.entry.id, st0)]
     steps = 0
@@ -604,6 +613,8 @@ def _ensure_contract(u, fn, cfg, R):
                 e = strip_casts(label[1])
                 if label[1].get('id') is not None:
                     s2.truth[label[1]['id']] = truth
+                if any(x.get('k') == 'mem' and x.get('f') == 'noalloc' for x in walk(label[1])):
+                    s2.flags.add('noalloc')
                 if e.get('id') is not None:
                     s2.truth[e['id']] = truth
                 if e.get('k') == 'bin' and e['op'] in ('<', '<=', '>', '>=', '==', '!='):
@@ -631,7 +642,19 @@ def _ensure_contract(u, fn, cfg, R):
                     s2.env[e['d']] = ('null',)
             work.append((y, s2))
 
-    need = N.add(O).add(Lin(1))
+    # how many bytes beyond the request every grant leaves free (the historic spare byte: needed + offset + 1 <= capacity)
+    def fits(st, base, extra):
+        cap = L if base == 'BUF0' else st.alloc.get(base)
+        if cap is None:
+            return False
+        need = N.add(O).add(Lin(extra))
+        ok_ = entails(st.cons, need.add(cap, -1))
+        if not ok_ and base != 'BUF0':
+            ok_ = need.leq(cap)
+        return bool(ok_)
+    grants = [(node, val, st) for (node, val, st) in results if isinstance(val, tuple) and val[0] == 'ptr']
+    fitting = [(val, st) for (_n, val, st) in grants if fits(st, val[1], 0)]      # (a grant that does not fit is reported below)
+    spare = 1 if fitting and all(fits(st, val[1], 1) for (val, st) in fitting) else 0
     n_ok = 0
     for (node, val, st) in results:
         if not (isinstance(val, tuple) and val[0] == 'ptr'):
@@ -646,20 +669,36 @@ def _ensure_contract(u, fn, cfg, R):
              bf[1] == base and bf[2].eq(Lin(0)),
              'returns %s + %s, p->buffer is %s' % (base, off, st.fld.get('buffer')), key='fit-result:%s' % ('inplace' if base == 'BUF0' else 'grown'))
         cap = L if base == 'BUF0' else st.alloc.get(base)
-        okc = cap is not None and entails(st.cons, need.add(cap, -1)) if cap is not None else False
-        if cap is not None and not okc and base != 'BUF0':
-            okc = need.leq(cap)
-        R.ob('OUT4', fn, node.stmt, 'a non-NULL result has room for needed + offset + 1 bytes', bool(okc),
-             'capacity %s; the conditions on this path give needed + offset + 1 <= capacity' % cap if okc else
-             'capacity %s is not shown to hold N + O + 1 on this path%s' % (
+        okc = fits(st, base, 0)
+        R.ob('OUT4', fn, node.stmt, 'a non-NULL result has room for the needed bytes at the offset (needed + offset <= capacity)', bool(okc),
+             'capacity %s; the conditions on this path give needed + offset%s <= capacity' % (cap, ' + 1' if fits(st, base, 1) else '') if okc else
+             'capacity %s is not shown to hold N + O on this path%s' % (
                  cap, ''.join('; the size_t difference %s can wrap around on some path (its subtrahend is not bounded by the conditions before it)' % w
                               for w in sorted({w for (_, w) in wraps}))), key='fit-accounting:%s' % ('inplace' if base == 'BUF0' else 'grown'))
         lenf = st.fld.get('length')
         R.ob('OUT4', fn, node.stmt, 'p->length describes the buffer the result points into', isinstance(lenf, Lin) and cap is not None and lenf.eq(cap),
              'p->length = %s, capacity %s' % (lenf, cap), key='fit-length:%s' % ('inplace' if base == 'BUF0' else 'grown'))
-        okv = entails(st.cons, O.add(Lin(1)).add(L, -1)) or entails(st.cons, L)
-        R.ob('OUT4', fn, node.stmt, 'the offset was valid (inside a non-empty buffer)', okv,
-             'offset < length or length == 0 holds on this path' if okv else 'offset >= length is not refused on this path', key='refusal:offset')
+        # what is copied out of the old buffer lies inside it (an empty buffer, length 0, is left to the allocator)
+        for (mc, k_) in st.reads:
+            okr = k_ is not None and (entails(st.cons, k_.add(L, -1)) or entails(st.cons, L))
+            R.ob('OUT4', fn, mc, 'the bytes copied out of the old buffer lie inside it', bool(okr),
+                 '%s <= length holds on this path' % k_ if okr else
+                 '%s byte(s) are read from a buffer of `length` bytes and nothing on this path bounds them by it' % (k_,), key='old-read')
+    # a request is refused for the offset alone only in a state no earlier grant can have produced: after a grant of N bytes
+    # the offset is at most length - spare, so `offset > length - spare` is the only offset a refusal may name
+    for (node, val, st) in results:
+        if not (isinstance(val, tuple) and val[0] == 'null') or st.alloc or 'noalloc' in st.flags or not st.cons:
+            continue
+        syms = set()
+        for c_ in st.cons:
+            syms |= set(c_.t)
+        if 'N' in syms or 'O' not in syms or not syms <= {'O', 'L'}:
+            continue
+        okf = entails(st.cons, L.add(Lin(1 - spare)).add(O, -1))
+        R.ob('OUT4', fn, node.stmt, 'a request is refused for its offset only when no grant can have left the offset there', okf,
+             'refused only for offset > length - %d (every grant keeps %d spare byte(s))' % (spare, spare) if okf else
+             'grants leave %d spare byte(s), so the offset can legitimately reach length - %d; this path refuses such a buffer instead '
+             'of growing it and the print fails for a printable tree' % (spare, spare), key='refusal:offset')
     R.floor('OUT4', 'non-NULL results of ensure', n_ok, 2)
     seen_c = {}
     for (e, mc, okb, hname) in copies:
